@@ -131,6 +131,7 @@ Definition v_out (c : world_case) (cfg : config) (w : world) (x : out) : val :=
   | OutMsg cls tr =>
       VL [VZ (Z.of_nat cls); VLs (v_call cfg) tr; v_bals c (w_l w); v_supply c (w_l w); v_state (w_o w)]
   | OutDeposit => VL [v_bals c (w_l w); v_supply c (w_l w)]
+  | OutSend ok => VL [VB ok; v_bals c (w_l w); v_supply c (w_l w)]
   | OutQuery a => v_answer a
   | OutBlocked => VL [VZ 1; VL []; v_bals c (w_l w); v_supply c (w_l w); v_state (w_o w)]
   | OutAppPanic => VL [VZ 2; VL [VL [VS "wrapped"; VB true]]; v_bals c (w_l w); v_supply c (w_l w); v_state (w_o w)]
